@@ -1178,6 +1178,15 @@ class FileBuilder:
         if (self._new_cache.has_norm_cased_file(os.path.normcase(filename)) or
                 self._simple_operation_executor.is_cache_file(filename)):
             return False
+        if self._simple_operation_executor.is_dir(filename, created_files):
+            # _prepare_file_creation would raise an IsADirectoryError
+            return False
+        if (operation.raised and
+                self._simple_operation_executor.is_file(
+                    filename, created_files)):
+            # Executing the operation would remove the file, but reusing the
+            # cached exception would leave it in place
+            return False
         try:
             self._dirs_to_make(os.path.dirname(filename), created_files)
         except OSError:
